@@ -104,15 +104,15 @@ def items : Cond → List Item
         ++ idsI (sortDedupStr opts) ++ [([], S ']'), ([], S ')')])
   | .cds neg subs =>
       let J := joinI "or" subs
-      let t := printJoin " or ".toList subs
+      let t := printJoin orSep subs
       let B := if isSingleton subs && subs.all Cond.isGroup && !(t.head? == some '(') then
         ([], S '(') :: J ++ [([], S ')')] else J
       preI neg ([([], W "cds"), ([], S '(')] ++ B ++ [([], S ')')])
   | .group neg subs =>
       let J := joinI "or" subs
-      let t := printJoin " or ".toList subs
+      let t := printJoin orSep subs
       if isSingleton subs && !(subs.all Cond.isConj) then
-        if neg && "not ".toList.isPrefixOf t then [([], W "not")] ++ lead sp (([], S '(') :: J ++ [([], S ')')])
+        if neg && notSpC.isPrefixOf t then [([], W "not")] ++ lead sp (([], S '(') :: J ++ [([], S ')')])
         else preI neg J
       else preI neg (([], S '(') :: J ++ [([], S ')')])
   | .conj subs => joinI "and" subs
@@ -158,8 +158,8 @@ theorem toString_int_nonneg {s : Int} (h : 0 ≤ s) : toString s = toString s.to
   obtain ⟨n, rfl⟩ := Int.eq_ofNat_of_zero_le h
   rfl
 
-theorem sep_or : " or ".toList = ' ' :: "or".toList ++ [' '] := by decide
-theorem sep_and : " and ".toList = ' ' :: "and".toList ++ [' '] := by decide
+theorem sep_or : orSep = ' ' :: "or".toList ++ [' '] := by decide
+theorem sep_and : andSep = ' ' :: "and".toList ++ [' '] := by decide
 theorem lit_comma_sp : ", ".toList = [',', ' '] := by decide
 theorem lit_comma_sp_l : ", [".toList = [',', ' ', '['] := by decide
 theorem lit_close2 : "])".toList = [']', ')'] := by decide
